@@ -13,6 +13,7 @@ from vv.core import Result, exc_violation, innermost_is_harness
 
 ID = 'C14'
 CASES = {'quick': 1200, 'thorough': 40000}
+FUZZ_RUNS = 40000        # thorough tier: atheris workers, -runs per worker
 RULE = ('Hypothesis draws recursive tagged trees over None/bool/int(<2^64)/'
         'finite float/str(incl. near-miss "!units[" forms)/list/tuple/set/'
         'str-keyed dict/numpy scalars/numeric, bool and string arrays (<=3 '
